@@ -184,7 +184,12 @@ def _recorded_loop(s, fl, universe=None):
 
     s.before_hasspec = before_hasspec
     try:
-        outcome, spec = s.run()
+        try:
+            outcome, spec = s.run()
+        except BaseException as e:  # the time budget of a table session (raised from a signal handler): the loop so far is judged
+            if type(e).__name__ != "_Late":
+                raise
+            outcome = "time-budget"
         fill()
         u = universe if universe is not None else extract(s)
         events = loop_events(s)
@@ -354,8 +359,8 @@ def table_campaign(run, tier, seed, n=None, want_mc=True):
     import concurrent.futures
     from .common import pmap
 
-    # 60 universes in both tiers (the thorough tier model-checks more of them for all slicings)
-    n = n or 60
+    # 60 universes in the quick tier, 120 in the thorough tier (which also model-checks more of them for all slicings)
+    n = n or (60 if tier == "quick" else 120)
     scheds = ("one", "three", "all", "mixed")
     args = [(seed * 100000 + i, ("default", "forest", "forget")[i % 3] if i % 6 else "default", scheds[i % 4]) for i in range(n)]
     # in batches of 60 universes (sessions in forked workers, then one single-worker monitor JVM per recorded loop)
